@@ -277,6 +277,16 @@ func RunChild(p *Prop, tier string, seed int64, shard, nshards int, build, dir s
 		Rng: SubRng(seed, p.ID, fmt.Sprint(shard)), prop: p, st: st, slot: sl, from: envInt("VERIF_FROM", 0)}
 	t0 := time.Now()
 	go stallMonitor(p, tier, sl, st, base, t0)
+	if shard%4 == 3 {
+		// GC timing as a workload dimension: every fourth shard collects garbage every 20 ms, so that pools are
+		// emptied, finalizers run and weak caches are dropped in the middle of call sequences
+		go func() {
+			for {
+				time.Sleep(20 * time.Millisecond)
+				runtime.GC()
+			}
+		}()
+	}
 	var wg sync.WaitGroup
 	if n := p.Parallel; n > 1 {
 		if n > maxWorkers {
